@@ -290,18 +290,18 @@ type replayFile struct {
 }
 
 type runOut struct {
-	Property    string                `json:"property"`
-	Evaluations int64                 `json:"evaluations"`
-	Labels      map[string]int64      `json:"labels"`
-	Samples     []json.RawMessage     `json:"samples"`
-	First       []json.RawMessage     `json:"first"`
-	SampleKeys  []string              `json:"sample_keys"`
-	Known       map[string]*knownHit  `json:"known"`
-	Violation   *replayFile           `json:"violation,omitempty"`
-	Replayed    int                   `json:"replayed"`
-	WallS       float64               `json:"wall_s"`
-	Exhaustive  bool                  `json:"exhaustive"`
-	Extra       map[string]any        `json:"extra,omitempty"`
+	Property    string               `json:"property"`
+	Evaluations int64                `json:"evaluations"`
+	Labels      map[string]int64     `json:"labels"`
+	Samples     []json.RawMessage    `json:"samples"`
+	First       []json.RawMessage    `json:"first"`
+	SampleKeys  []string             `json:"sample_keys"`
+	Known       map[string]*knownHit `json:"known"`
+	Violation   *replayFile          `json:"violation,omitempty"`
+	Replayed    int                  `json:"replayed"`
+	WallS       float64              `json:"wall_s"`
+	Exhaustive  bool                 `json:"exhaustive"`
+	Extra       map[string]any       `json:"extra,omitempty"`
 }
 
 func envInt(name string, def int) int {
